@@ -53,6 +53,7 @@ InitFrom(e) ==
   /\ out = [ev |-> "Init"]
   /\ touched = FALSE
   /\ zeros = 0
+  /\ H4Init
 
 TraceInit ==
   /\ Trace[1].ev = "Init"
@@ -67,6 +68,7 @@ StepInit(e) ==
   /\ cfg' = CfgOf(e) /\ fanMin' = e.gmin /\ offset' = 0 /\ last' = Nil /\ pwm' = e.pwm
   /\ mode' = e.mode /\ avg' = AvgOf(e.avgm) /\ unexpected' = 0 /\ status' = "Regulating"
   /\ loop' = LoopInit /\ out' = [ev |-> "Init"] /\ touched' = FALSE /\ zeros' = 0
+  /\ ccv' = Nil /\ kc' = 0 /\ prevReq' = Nil
   /\ drift' = drift
 
 \* --- Cycle -------------------------------------------------------------------
@@ -100,7 +102,7 @@ StepCycle(e) ==
   /\ loop' = LoopAfter(e)
   /\ out' = [ev |-> "Cycle", cv |-> e.cv, req |-> e.req, err |-> e.err, wrote |-> e.wrote,
              raised |-> raised, tp |-> e.unexpected - unexpected]
-  /\ HCycle
+  /\ HCycle /\ H4Cycle
   \* conformance: is (this state, the observed next state) a step of the specification?
   /\ drift' = Note(/\ avg = AvgOf(e.avgm)
                    /\ LoopConforms(e)
@@ -124,7 +126,7 @@ RpmConforms(e) ==
 StepRpm(e) ==
   /\ avg' = AvgOf(e.avgm2)
   /\ out' = [ev |-> "Rpm", r |-> e.r, ok |-> e.ok]
-  /\ HRpm(e.r)
+  /\ HRpm(e.r) /\ H4Keep
   /\ UNCHANGED <<cfg, fanMin, offset, last, pwm, mode, unexpected, status, loop>>
   /\ drift' = Note(RpmConforms(e))
 
@@ -132,13 +134,13 @@ StepRpm(e) ==
 StepSetAvg(e) ==
   /\ avg' = AvgOf(e.avgm2)
   /\ out' = [ev |-> "Rpm", r |-> 0, ok |-> TRUE]
-  /\ touched' = touched /\ zeros' = 0
+  /\ touched' = touched /\ zeros' = 0 /\ H4Keep
   /\ UNCHANGED <<cfg, fanMin, offset, last, pwm, mode, unexpected, status, loop>>
   /\ drift' = drift
 
 StepPoke(e) ==
   /\ ThirdParty(e.mode, e.pwm)
-  /\ HPoke(e.pwm)
+  /\ HPoke(e.pwm) /\ H4Keep
   /\ drift' = drift
 
 TraceNext ==
